@@ -37,7 +37,12 @@ SHAPES = [
     ("extra-file-program", dict(nprog=1, extra=1)),
     ("namelist-only-prog", dict(nprog=1, namelist=1)),
     ("absint", dict(nmod=1, absint=1)),
+    # hub-shaped: module m0 is used by six others, procedure hubp is called by six others, type hub_t is
+    # extended by six others, file m0.f90 is depended on by six files (some neighbours private)
+    ("hub", dict(nmod=7, hub=1, nprog=1, types=1)),
+    ("hub-hidden", dict(nmod=7, hub=2, types=1)),
 ]
+HUB_OPTIONS = {"graph_maxnodes": ["4", "2", "3", "100"], "graph_maxdepth": ["1", "2", "10000"]}
 
 
 def gen_spec(rng, force_shape=None, force_options=None):
@@ -55,6 +60,17 @@ def gen_spec(rng, force_shape=None, force_options=None):
     if rng.random() < 0.4:
         opts["display"] = ["public", "protected"]
     opts.update(force_options or {})
+    if shape.get("hub"):
+        shape["onefile"] = False
+        opts["graph"] = "true"
+        for k, v in HUB_OPTIONS.items():
+            opts[k] = rng.choice(v)
+        if shape["hub"] == 2:
+            opts["display"] = rng.choice([["public"], ["public", "protected"]])
+        opts.update(force_options or {})
+    elif rng.random() < 0.25:
+        opts["graph_maxnodes"] = rng.choice(["2", "4"])
+        opts["graph_maxdepth"] = rng.choice(["1", "2"])
     pages = rng.choice([None, None, "flat", "nested"])
     return {"name": name, "shape": shape, "options": opts, "pages": pages,
             "media": pages is not None and rng.random() < 0.5}
@@ -101,8 +117,9 @@ class Renderer:
         name = f"m{i}"
         L = [f"module {name}"]
         L += _doc("  ", self.u(), self.pick())
+        hub = sh.get("hub", 0)
         if i > 0:
-            L.append(f"  use m{i - 1}")
+            L.append("  use m0" if hub else f"  use m{i - 1}")
         L.append("  implicit none")
         L.append("  private" if sh.get("private_default") else "  public")
         ntypes = sh.get("types", 0)
@@ -172,7 +189,23 @@ class Renderer:
         if self.rng.random() < 0.4:
             L += [f"  integer :: cm{i}a, cm{i}b", f"  common /blk{i}/ cm{i}a, cm{i}b"]
             L += _doc("    ", self.u(), self.pick(1))
-        if procs or ntypes:
+        hidden = hub == 2 and i % 2 == 1           # private neighbours of the hub
+        if hub and i == 0:
+            L += ["  type, public :: hub_t", f"    !! zq{self.u()}w hub type", "    integer :: hv = 0", "  end type hub_t",
+                  "  public :: hubp, hubcaller"]
+            # the hub also *calls* six procedures and *contains* six derived types, every other one private
+            for j in range(1, 7):
+                vis = "private" if (hub == 2 and j % 2 == 1) else "public"
+                L += [f"  {vis} :: hp{j}", f"  type, {vis} :: hk{j}_t", f"    integer :: hz{j} = 0", f"  end type hk{j}_t"]
+            L += ["  type, public :: hubholder_t", f"    !! zq{self.u()}w holds six types"]
+            L += [f"    type(hk{j}_t) :: hc{j}" for j in range(1, 7)]
+            L += ["  end type hubholder_t"]
+            self.refs += ["hub_t", "hubp", "hubcaller", "hubholder_t"]
+        if hub and i > 0:
+            L += [f"  type, {'private' if hidden else 'public'}, extends(hub_t) :: ht{i}_t", f"    !! zq{self.u()}w",
+                  f"    integer :: hx{i} = 0", f"  end type ht{i}_t",
+                  f"  {'private' if hidden else 'public'} :: hc{i}"]
+        if procs or ntypes or hub:
             L.append("contains")
         for j, p in enumerate(procs):
             L += self.proc(p, "  ", calls=[q for q in procs if q != p][:1],
@@ -180,6 +213,18 @@ class Renderer:
                            namelist=bool(sh.get("namelist")) and j == 0,
                            perm=self.rng.choice([None, None, "public", "private"]), module=name)
             self.refs += [p, f"{p}(proc)", f"{name}:{p}"]
+        if hub and i == 0:
+            L += ["  subroutine hubp(a)", f"    !! zq{self.u()}w the hub procedure", "    integer, intent(in) :: a",
+                  "    integer :: hl", "    hl = a", "  end subroutine hubp"]
+            L += ["  subroutine hubcaller(a)", f"    !! zq{self.u()}w calls six procedures", "    integer, intent(in) :: a"]
+            L += [f"    call hp{j}(a)" for j in range(1, 7)]
+            L += ["  end subroutine hubcaller"]
+            for j in range(1, 7):
+                L += [f"  subroutine hp{j}(a)", f"    !! zq{self.u()}w", "    integer, intent(in) :: a",
+                      "    integer :: hq", "    hq = a", f"  end subroutine hp{j}"]
+        if hub and i > 0:
+            L += [f"  subroutine hc{i}(a)", f"    !! zq{self.u()}w calls the hub", "    integer, intent(in) :: a",
+                  "    call hubp(a)", f"  end subroutine hc{i}"]
         if ntypes:
             L += [f"  subroutine fin{i}(self)", f"    type(t{i}_0_t), intent(inout) :: self",
                   f"    self%c0a = 0", f"  end subroutine fin{i}"]
